@@ -13,6 +13,16 @@ CHECKS = {
     text="Exploration: random programs of the core command language incl. command-search probes; exact (probe id, $?) sequence of the main process, multiset of child-process sequences and final status must equal the reference interpreter's, under the canonical and a varied surface rendering. Bounded random search with shrinking.",
     note="Trusted: the reference interpreter harness/src/model/interp.rs and its renderer. Only uses of break/continue/return that POSIX defines are generated.",
     design="4/C02"),
+ "C05": dict(
+    technique="property-based testing: exhaustive (fixed trees x all patterns of <=2 components) + proptest (tree, word) pairs on the virtual file system against an independent glob model built on the reference pattern matcher",
+    text="Exploration: 4-6 fixed trees x every pattern of <=2 components over a 26-54 component alphabet, plus 150k (quick) / 5M (thorough) random (tree, word) pairs with symlinks, unsearchable directories, metacharacter names, quoted segments and parts from variables; the probe's argument list must equal the model's sorted list of existing matching paths (or the unchanged word). Bounded.",
+    note="Trusted: harness/src/model/glob.rs + model/fnmatch.rs. Classes the simulated OS cannot express (symlink in the middle of a path, unreadable directories) are skipped and counted; one simulator deviation is an open known finding (vfs-dot-in-unsearchable-dir).",
+    design="4/C05"),
+ "C07": dict(
+    technique="property-based testing: round trip quote->lex->expand over exhaustive/random strings, and print->evaluate-in-fresh-shell->snapshot comparison over proptest state-definition sequences for ten listing built-ins",
+    text="Exploration: every string up to length 3 (quick) / 4 (thorough) over 43 shell-special characters plus random Unicode strings to length 40 must read back as exactly one identical field in six syntactic positions; random states (variables with attributes, arrays, aliases, functions, options, traps, umask) printed by alias / export -p / readonly -p / typeset -p / typeset -fp / set / set +o / trap / umask / umask -S must be recreated by a fresh shell evaluating the listing. Bounded.",
+    note="Trusted: snapshot probe, the harness' own single-quote renderer for definitions. Two open known findings concern typeset -fp (function keyword, reserved-word names). Global aliases do not exist in yash-rs and are not covered.",
+    design="4/C07"),
  "C08": dict(
     technique="property-based testing: exhaustive (subshell kind x mutator) grid + proptest mutator sequences under FIFO and seeded schedules; invariant oracle on full parent snapshots before/after and on the child's view at entry",
     text="Exploration: 10 subshell kinds x 67 state mutators x 3 schedules exhaustively, plus random sequences of 1-5 mutators under random schedules with preemption; the parent's complete observable state (variables+attributes, functions, aliases, options, positional parameters, traps, cwd, umask, descriptor table by open-file-description identity, signal dispositions) must be identical before and after; the child's view at entry must equal it except for reset command traps. Bounded.",
@@ -52,6 +62,11 @@ CHECKS = {
     text="Exploration: a grid of 19 boundary sizes x 4 trailing-newline counts x 8 shapes x 40 (quick) / 400 (thorough) schedules, random sizes up to 4x pipe capacity with shrinkable scripted schedules, and a depth-first enumeration of schedules for four small transfers; received bytes / $( ) value / here-document body must equal what was produced. Bounded.",
     note="Trusted: probe built-ins gen/cat/sink, harness scheduler, preemption hooks. Only the simulated pipe implementation (PIPE_BUF 512, PIPE_SIZE 1024) is exercised.",
     design="4/C14"),
+ "C18": dict(
+    technique="property-based testing / metamorphic: proptest scripts fed as -c string, script file, stdin file and stdin pipe written in generated chunk sizes under generated schedules; compared with a reference line-at-a-time interpretation",
+    text="Exploration: random scripts (alias definitions and uses, read consuming following lines, multi-line commands, here-documents, eval/source of multi-line text, planted syntax errors, offset probes) run in four feeding modes; probe traces, read values, here-document data, status and (for seekable stdin) the descriptor offset after each command must equal the reference and hence each other. Bounded.",
+    note="Trusted: the reference interpretation in harness/src/props/c18.rs, the helper process that feeds the pipe (vsys.rs). The pipe feeder yields between chunks so the scheduler interleaves reader and writer; the real OS is not used.",
+    design="4/C18"),
  "C20": dict(
     technique="property-based testing: exhaustive argument-vector enumeration + proptest vectors against a reference option parser (API half) and combinatorial equivalent-spelling groups for the shell command line (metamorphic); built-in catalogue half pending",
     text="Exploration: every vector of <=4 (quick) / <=5 (thorough) tokens from a 23-token alphabet x 9 option specifications x 8 modes compared with a reference parser of the utility syntax guidelines (options, arguments, operands, error class and location), random longer vectors, and ~10k groups of equivalent spellings of the shell's own command line that must parse equal (plus malformed ones that must be rejected).",
